@@ -210,8 +210,11 @@ def ev_expr(e, outs, ins):
     return go()
 
 
-def oracle(c):
-    """expected log lines for one case (same text as harness / model)"""
+def oracle(c, stats=None):
+    """expected log lines for one case (same text as harness / model); `stats` counts which register rule fired"""
+    def hit(k):
+        if stats is not None:
+            stats[k] = stats.get(k, 0) + 1
     T = Tree(c)
     out = [f"case {c['id']}"]
     rel = [i for i in range(T.n) if T.relevant(i)]
@@ -236,6 +239,13 @@ def oracle(c):
             inrst[r] = (level == K[ck]["act"]) and regs[r]["rstval"] is not None
             if inrst[r] and K[ck]["rst"] == "A":
                 val[r] = regs[r]["rstval"]
+                hit("reset_event_async_writes_value")
+            elif inrst[r]:
+                hit("reset_event_sync_asserts")
+            elif regs[r]["rstval"] is None:
+                hit("reset_event_no_reset_value")
+            else:
+                hit("reset_event_releases_or_inactive_level")
 
     pending_rst = list(c["rstev"])
     for s in rpins:
@@ -243,6 +253,7 @@ def oracle(c):
         h = T.hold(s)
         if h == 0:
             reset_change(s, not K[s]["act"])
+            hit("poweron_immediate_release")
         else:
             pending_rst.append((h, s, not K[s]["act"]))
     stim = list(c["stim"])
@@ -295,12 +306,21 @@ def oracle(c):
             if inrst[r]:
                 if K[ck]["rst"] == "S":
                     val[r] = regs[r]["rstval"]
+                    hit("advance_in_sync_reset")
+                else:
+                    hit("advance_ignored_in_async_reset")
                 continue
             en = ev_expr(regs[r]["en"], pre, pre_in) if regs[r]["en"] else "1"
             if en == "X":
                 val[r] = "X" * regs[r]["w"]
+                hit("advance_enable_undefined")
             elif en == "1":
                 val[r] = ev_expr(regs[r]["d"], pre, pre_in) if regs[r]["d"] else "X" * regs[r]["w"]
+                hit("advance_enable_1" if regs[r]["d"] else "advance_data_unconnected")
+                if regs[r]["d"] and any(pre[j] != val[j] and ("r%d" % j) in regs[r]["d"] for j in range(r)):
+                    hit("advance_driver_changed_in_same_instant")
+            else:
+                hit("advance_enable_0")
         rnow = sorted([(s, lv) for (tt, s, lv) in pending_rst if tt == t])
         pending_rst = [(tt, s, lv) for (tt, s, lv) in pending_rst if tt != t]
         for s, lv in rnow:
@@ -631,6 +651,13 @@ def main():
     with V.Lock("coq_C04_gen"):
         rc, tout = V.run([sys.executable, str(V.VERIF / "translate" / "C04_eventorder.py"), str(V.REPO), str(gen)], timeout=120)
     translator_ok = (rc == 0)
+    if not translator_ok:
+        # fail closed: no stale compiled copy of the generated file may satisfy the Coq build
+        for f in (V.COQ / "Gatery" / "gen").glob("EventOrder.*"):
+            try:
+                f.unlink()
+            except OSError:
+                pass
     res = V.check_properties(CID)
     rep.add_proof(res)
     drv = V.build_model(CID)
@@ -674,11 +701,12 @@ def main():
     else:
         model, model_sh, merr, merr2 = {}, {}, [], []
     orac = {}
+    rule_hist = {}
     for c in cases:
-        orac[c["id"]] = oracle(c)
+        orac[c["id"]] = oracle(c, rule_hist)
 
     mism_model, mism_oracle, mism_shuffle, errors = [], [], [], []
-    hist = dict(family={}, trig={}, rst={}, shared_pin_opposite_edge=0, derived=0, cdc_regs=0, undefined_enable_instants=0,
+    hist = dict(family={}, trig={}, rst={}, shared_pin_opposite_edge=0, derived=0, cdc_regs=0,
                 coincident_pins_instants=0, reset_event_on_edge=0, stim_on_edge=0, async_assert_off_edge=0, instants=0)
     nontrivial = set()
     for c in cases:
@@ -757,6 +785,7 @@ def main():
     rep.cov["instants_compared"] = hist["instants"]
     rep.cov["corpus_cases"] = ncorpus
     rep.cov["histogram"] = hist
+    rep.cov["register_rule_histogram"] = rule_hist   # counted by the oracle, which agrees with the implementation line by line
     rep.cov["largest_numerator_or_denominator_of_any_simulation_time"] = maxden
     rep.cov["event_order_translator"] = tout.strip()[:400]
     rep.cov["samples"] = [dict(case=case_text(c), impl_log=impl[c["id"]][:14]) for c in cases[ncorpus:ncorpus + 2]]
